@@ -9,6 +9,7 @@ import (
 	"strings"
 	"time"
 
+	xsd "git.sr.ht/~mariusor/go-xsd-duration"
 	"github.com/valyala/fastjson"
 )
 
@@ -142,9 +143,13 @@ func JSONGetTime(val *fastjson.Value, prop string) time.Time {
 }
 
 func JSONGetDuration(val *fastjson.Value, prop string) time.Duration {
-	if str := val.Get(prop).GetStringBytes(); len(str) > 0 {
-		// TODO(marius): this needs to be replaced to be compatible with xsd:duration
-		d, _ := time.ParseDuration(string(str))
+	if str := val.Get(prop).GetStringBytes(); len(str) > 1 {
+		var d time.Duration
+		if err := xsd.Unmarshal(str, &d); err == nil {
+			return d
+		}
+		// NOTE(marius): fall back to the Go duration syntax
+		d, _ = time.ParseDuration(string(str))
 		return d
 	}
 	return 0
